@@ -383,11 +383,15 @@ def run_pair(res, exe, rng, first, sched=False, cbreset=False, ns=1):
             res.counters["reset_inside_" + cbr[0]] += 1
         else:
             occ_before = a.occ()
-            evs = a.rx(0, bytes([kind, nid]))
+            evs = a.rx(0, bytes([kind, 0]))        # addressed to all nodes: H may have changed the node id already (stored LSS configuration + a reset inside H)
         boot = [x for x in S.txs(evs)]
         if stored and stored[1]:
             nid = stored[1]              # "a stored configuration becomes the active node id at the next reset"
             res.counters["resets_activating_a_stored_node_id"] += 1
+        got_id = a.ret("getnodeid")
+        if got_id is None or int(got_id[0]) != nid:
+            res.violation("c20/node-id", "active node id after the reset: %r, reference %d (stored LSS configuration %r)" % (got_id, nid, stored), sim=a)
+            return
         if [(x[1], x[3]) for x in boot] != [(0x700 + nid, b"\x00")]:
             res.violation("c20/bootup", "reset emitted %r, reference one boot-up frame" % [("%x" % x[1], x[3].hex()) for x in boot], sim=a)
             return
